@@ -50,8 +50,10 @@ def obligations(tier):
     obs.append(dict(name="chunked", harness="C23_chunked.c", entry="harness_chunked", defines=["VP_S=%d" % S],
                 unwind=S + 3, timeout=900 if tier == "quick" else 2400, mem_gb=8,
                 desc="chunked body decoder on a symbolic stream of <=%d bytes vs RFC 9112 7.1 reference" % S))
-    for mode, ss in (("HEADERS", 6 if tier == "quick" else 7), ("CHUNKED", 7 if tier == "quick" else 9), ("FIRSTLINE", 14 if tier == "quick" else 16)):
+    for mode, ss in (("HEADERS", 6 if tier == "quick" else 8), ("CHUNKED", 7 if tier == "quick" else 9), ("FIRSTLINE", 14 if tier == "quick" else 16)):
         obs.append(dict(name="segment_" + mode.lower(), harness="C23_segment.c", entry="harness_segment",
-                    defines=["VP_S=%d" % ss, "VP_SEG_" + mode], unwind=ss + 3, cbmc=["--object-bits", "10"], timeout=900 if tier == "quick" else 2400, mem_gb=8,
+                    defines=["VP_S=%d" % ss, "VP_SEG_" + mode, "VP_STR_OBJ=%d" % (ss + 2)], unwind=ss + 3, cbmc=["--object-bits", "10"],
+                    # a non-final header line needs >= 3 bytes ("a:" LF): the line loop runs at most S/3+2 times (unwinding assertion proves it)
+                    unwindset=["evhttp_parse_headers_.0:%d" % (ss // 3 + 3)], timeout=900 if tier == "quick" else 2400, mem_gb=8,
                     desc="segmentation independence of %s: symbolic stream <=%d bytes, symbolic cut point, one read vs two reads" % (mode.lower(), ss)))
     return obs
